@@ -95,6 +95,8 @@ func runC01(c *Ctx, r *Report) {
 	// (g) every worker evaluates with its own matcher instance
 	borrow(c, r, c05MatcherPerWorker, "C05-e", "C01-g", nil, true)
 	c05FreshInstance(c, r, "C01-g/fresh-instance")
+	// (h) a readable input is read: the opener fails only for the open itself or the rewind
+	borrow(c, r, c06OpenFailures, "C06-b/open-failures", "C01-h/open-failures", nil, true)
 }
 
 // atomicAddTarget: atomic.AddUint64(&x.f, 1) -> field name.
